@@ -14,6 +14,7 @@ ARG_ORDER = {
     'inc_strong': ['r'], 'dec_strong': ['r'], 'w_into_raw': ['w', 'as'], 'w_from_raw': ['r', 'as'],
     'on_drop_panic': ['obj'], 'note': [], 'links': ['h'], 'clone_mode': ['mode'], 'new_from': ['obj', 'as'], 'new_from_box': ['obj', 'as'], 'eq': ['a', 'b'], 'ne': ['a', 'b'], 'lt': ['a', 'b'], 'le': ['a', 'b'], 'gt': ['a', 'b'], 'ge': ['a', 'b'], 'cmp': ['a', 'b'], 'partial_cmp': ['a', 'b'], 'drop_any': ['h'], 'cost_clone': ['h', 'as'], 'cost_drop': ['h'], 'drop_if': ['h'], 'drop_all_wextras': ['obj'],
     'self_take': ['slot', 'as'], 'self_take_weak': ['slot', 'as'],
+    'drop_via_raw': ['h'], 'upgrade_if': ['w'], 'wdrop_if': ['w'],
     'hash': ['h'], 'fmt_display': ['h'], 'fmt_debug': ['h'], 'fmt_pointer': ['h'], 'wfmt_debug': ['w'],
 }
 
